@@ -5,6 +5,7 @@ package c11
 // without it, on the same membership, keys and block store; "err == nil" must agree request by request.
 
 import (
+	"strings"
 	"encoding/hex"
 	"fmt"
 	"sort"
@@ -129,7 +130,7 @@ func prop(c c11Case) common.Result {
 			distinctAccepted[sb+"|"+ctx] = true
 		}
 	}
-	call := func(f func() error) (ok bool, panicked bool, msg string) {
+	call1 := func(f func() error) (ok bool, panicked bool, msg string) {
 		defer func() {
 			if r := recover(); r != nil {
 				panicked, msg = true, fmt.Sprint(r)
@@ -140,6 +141,16 @@ func prop(c c11Case) common.Result {
 			return false, false, err.Error()
 		}
 		return true, false, ""
+	}
+	// BLS: the pinned pairing library refuses some valid inputs depending on the order in which batch verification happens to add
+	// its pairs (map order; open finding 30 of C02), so one call may refuse what the next accepts. A refusal by the pairing check
+	// counts as the verdict only if it repeats; false acceptances do not occur. Both replicas are treated alike.
+	call := func(f func() error) (ok bool, panicked bool, msg string) {
+		ok, panicked, msg = call1(f)
+		for try := 0; try < 4 && c.Scheme == "bls12" && !ok && !panicked && strings.Contains(msg, "bls12: failed to verify"); try++ {
+			ok, panicked, msg = call1(f)
+		}
+		return
 	}
 	for i, o := range c.Ops {
 		step := fmt.Sprintf("%s n=%d capacity=%d verifier=%d step %d %+v", c.Scheme, c.N, c.Cap, c.Verifier, i, o)
